@@ -10,41 +10,45 @@ Import ListNotations.
 From Dagrt Require Import Refcount RefcountBase RefcountOps RefcountState.
 
 (* ---- unfolding of the nested fixpoints of run_code ---- *)
-Fixpoint run_list (v : nat -> bool) (l : list code) (st : mstate) : outcome :=
+Fixpoint run_list (v : valn) (ctx : list nat) (l : list code) (st : mstate) : outcome :=
   match l with
   | [] => ONormal st
-  | c :: r => match run_code v c st with
-              | ONormal st' => run_list v r st'
+  | c :: r => match run_code v c ctx st with
+              | ONormal st' => run_list v ctx r st'
               | o => o
               end
   end.
 
-Fixpoint run_loop (v : nat -> bool) (b : code) (k : nat) (st : mstate) : outcome :=
+(* k trips are left, the next one has index i *)
+Fixpoint run_loop (v : valn) (ctx : list nat) (b : code) (k i : nat) (st : mstate) : outcome :=
   match k with
   | 0 => ONormal st
-  | S k' => match run_code v b st with
-            | ONormal st' => run_loop v b k' st'
+  | S k' => match run_code v b (i :: ctx) st with
+            | ONormal st' => run_loop v ctx b k' (S i) st'
             | o => o
             end
   end.
 
-Lemma run_code_block v l st : run_code v (CBlock l) st = run_list v l st.
+Lemma run_code_block v ctx l st : run_code v (CBlock l) ctx st = run_list v ctx l st.
 Proof.
   revert st. induction l as [|c r IH]; intros st; [reflexivity|].
-  cbn. destruct (run_code v c st); try reflexivity. apply IH.
+  cbn. destruct (run_code v c ctx st); try reflexivity. apply IH.
 Qed.
 
-Lemma run_code_for v b k st : run_code v (CFor k b) st = run_loop v b k st.
+Lemma run_code_for v ctx b k st : run_code v (CFor k b) ctx st = run_loop v ctx b k 0 st.
 Proof.
-  revert st. induction k as [|k IH]; intros st; [reflexivity|].
-  cbn. destruct (run_code v b st); try reflexivity. apply IH.
+  cbn. generalize 0 as i. revert st. induction k as [|k IH]; intros st i; [reflexivity|].
+  cbn. destruct (run_code v b (i :: ctx) st); try reflexivity. apply IH.
 Qed.
 
-Lemma run_list_ops v l st : run_list v (map COp l) st = run_ops l st.
+Lemma run_list_ops v ctx l st : run_list v ctx (map COp l) st = run_ops l st.
 Proof.
   revert st. induction l as [|o r IH]; intros st; [reflexivity|].
   cbn. destruct (run_op o st); try reflexivity. apply IH.
 Qed.
+
+Lemma run_code_ops v ctx l st : run_code v (CBlock (map COp l)) ctx st = run_ops l st.
+Proof. rewrite run_code_block. apply run_list_ops. Qed.
 
 Lemma run_ops_app l1 l2 st :
   run_ops (l1 ++ l2) st = match run_ops l1 st with ONormal st' => run_ops l2 st' | o => o end.
@@ -127,7 +131,8 @@ Section Phase.
   Hypothesis scopeU : forall x, In x scope -> In x U.
   Hypothesis NDsid : NoDup (map sid all).
   Hypothesis WF : forall s, In s all -> stmt_wf scope s = true.
-  Variable v : nat -> bool.
+  Variable v : valn.
+  Variable swc : bool.          (* sw_stmt_cond: the invariant holds for both shapes of lower_inst *)
 
   Definition Jinv (S : list nat) (st : mstate) : Prop :=
     forall x, In x scope -> defd st x = true -> vars st x = None ->
@@ -272,12 +277,13 @@ Section Phase.
     - now apply memv_In.
   Qed.
 
-  Lemma stmt_ok (inloop : bool) pre s post' S st :
+  (* what emit_inst_<T> emits for s: the statement proper, then its last-use releases *)
+  Lemma stmt_ops_ok (inloop : bool) pre s post' S st :
     all = pre ++ s :: post' ->
     (forall i, In i S -> ~ In i (map sid (s :: post'))) ->
     Inv S st ->
     post (Inv (if inloop then S else S ++ [sid s]))
-         (run_ops (emit_stmt true globs tbl inloop s) st).
+         (run_ops (stmt_ops true globs tbl inloop s) st).
   Proof.
     intros Hall Hdis HI.
     assert (Hin : In s all) by (rewrite Hall; apply in_or_app; right; now left).
@@ -288,18 +294,17 @@ Section Phase.
           try (right; right; apply in_or_app; right); assumption.
       - right. intros i Ht Hi. destruct (last_tbl_at pre s post' x Hx) as [j [Hj Hjin]].
         unfold tbl in Ht. rewrite Hall, Hj in Ht. injection Ht as <-. apply (Hdis j Hi Hjin). }
-    unfold emit_stmt. cbn [run_ops run_op]. rewrite run_ops_app.
+    unfold stmt_ops. rewrite run_ops_app.
     (* the core *)
-    assert (Hcore : post (Inv S) (run_ops (stmt_core s) (ev st [TMark true]))).
-    { assert (HI0 : Inv S (ev st [TMark true])) by exact HI.
-      unfold stmt_core. destruct (kind s) as [d src|ds|e] eqn:K.
+    assert (Hcore : post (Inv S) (run_ops (stmt_core s) st)).
+    { unfold stmt_core. destruct (kind s) as [d src|ds|e] eqn:K.
       - cbn [run_ops]. destruct Hk as [Hne Hsrc].
         pose proof (op_move S d src _ (Hsc d ltac:(unfold stmt_vars; rewrite K; now left))
-                            (Hment src Hsrc) (not_eq_sym Hne) HI0) as Hm.
-        destruct (run_op (OMove d src) (ev st [TMark true])); exact Hm.
+                            (Hment src Hsrc) (not_eq_sym Hne) HI) as Hm.
+        destruct (run_op (OMove d src) st); exact Hm.
       - rewrite run_ops_app.
-        assert (Ha : post (Inv S) (run_ops (map OAllocCheck ds) (ev st [TMark true]))).
-        { apply run_ops_post; [|exact HI0]. intros o Ho st1 H1.
+        assert (Ha : post (Inv S) (run_ops (map OAllocCheck ds) st)).
+        { apply run_ops_post; [|exact HI]. intros o Ho st1 H1.
           apply in_map_iff in Ho. destruct Ho as [x [<- Hx]]. apply op_alloc; [|assumption].
           apply Hsc. unfold stmt_vars. rewrite K. apply in_or_app. now left. }
         pbind Ha st1 H1. apply run_ops_post; [|exact H1]. intros o Ho st2 H2.
@@ -307,31 +312,60 @@ Section Phase.
         apply Hment. auto.
       - destruct e as [|p|]; cbn [run_ops].
         + apply (op_simple S OGoto); auto.
-        + pose proof (op_simple S (OSetNext p) _ (or_intror (or_introl (ex_intro _ p eq_refl))) HI0) as H1.
+        + pose proof (op_simple S (OSetNext p) _ (or_intror (or_introl (ex_intro _ p eq_refl))) HI) as H1.
           cbn in H1 |- *. apply (op_simple S OGoto); auto.
         + apply (op_simple S OStop); auto. }
-    pbind Hcore st1 H1. rewrite run_ops_app.
+    pbind Hcore st1 H1.
     unfold lastuse_deinits.
     destruct (lastuse s && negb (true && inloop)) eqn:Hl.
     - assert (inloop = false) as -> by (destruct inloop, (lastuse s); cbn in Hl; congruence).
       assert (H1' : Inv (S ++ [sid s]) st1) by (eapply Inv_mono; [|exact H1]; apply incl_appl, incl_refl).
-      assert (Hd : post (Inv (S ++ [sid s]))
-                        (run_ops (map ODeinit (filter (fun x => last_here tbl s x && negb (memv x globs))
-                                                      (mentions s))) st1)).
-      { apply run_ops_post; [|exact H1']. intros o Ho st2 H2.
-        apply in_map_iff in Ho. destruct Ho as [x [<- Hx]].
-        apply filter_In in Hx. destruct Hx as [Hx Hf].
-        apply andb_true_iff in Hf. destruct Hf as [Hlast Hng].
-        unfold last_here in Hlast. destruct (tbl x) as [i|] eqn:Ht; [|discriminate].
-        apply Nat.eqb_eq in Hlast. subst i.
-        apply (op_deinit_last _ x st2 (sid s)); auto.
-        - apply (Hment x Hx).
-        - apply negb_true_iff in Hng. now apply memv_false.
-        - apply in_or_app. right. now left. }
-      pbind Hd st2 H2. cbn. exact H2.
-    - cbn [map run_ops run_op]. cbn.
+      apply run_ops_post; [|exact H1']. intros o Ho st2 H2.
+      apply in_map_iff in Ho. destruct Ho as [x [<- Hx]].
+      apply filter_In in Hx. destruct Hx as [Hx Hf].
+      apply andb_true_iff in Hf. destruct Hf as [Hlast Hng].
+      unfold last_here in Hlast. destruct (tbl x) as [i|] eqn:Ht; [|discriminate].
+      apply Nat.eqb_eq in Hlast. subst i.
+      apply (op_deinit_last _ x st2 (sid s)); auto.
+      + apply (Hment x Hx).
+      + apply negb_true_iff in Hng. now apply memv_false.
+      + apply in_or_app. right. now left.
+    - cbn [run_ops post].
       destruct inloop; [exact H1|].
       eapply Inv_mono; [|exact H1]. apply incl_appl, incl_refl.
+  Qed.
+
+  (* lower_inst: the markers, and the `if` around a statement that carries its own condition
+     (a statement whose condition is false does nothing: the variables whose last mention it is
+     stay associated and are released at the exit label) *)
+  Lemma stmt_ok (inloop : bool) ctx pre s post' S st :
+    all = pre ++ s :: post' ->
+    (forall i, In i S -> ~ In i (map sid (s :: post'))) ->
+    Inv S st ->
+    post (Inv (if inloop then S else S ++ [sid s]))
+         (run_code v (emit_stmt true swc globs tbl inloop s) ctx st).
+  Proof.
+    intros Hall Hdis HI. unfold emit_stmt. rewrite run_code_block.
+    cbn [run_list]. change (run_code v (COp (OMark true)) ctx st) with (ONormal (ev st [TMark true])).
+    cbv iota.
+    assert (HI0 : Inv S (ev st [TMark true])) by exact HI.
+    pose proof (stmt_ops_ok inloop pre s post' S _ Hall Hdis HI0) as Hops.
+    assert (Hskip : Inv (if inloop then S else S ++ [sid s]) (ev st [TMark true])).
+    { destruct inloop; [exact HI0|]. eapply Inv_mono; [|exact HI0]. apply incl_appl, incl_refl. }
+    assert (Hmid : post (Inv (if inloop then S else S ++ [sid s]))
+                        (run_code v (match (if swc then scond s else None) with
+                                     | None => CBlock (map COp (stmt_ops true globs tbl inloop s))
+                                     | Some c => CIf c (CBlock (map COp (stmt_ops true globs tbl inloop s)))
+                                                       (CBlock [])
+                                     end) ctx (ev st [TMark true]))).
+    { destruct (if swc then scond s else None) as [c|].
+      - change (run_code v (CIf c ?t ?e) ctx ?st0)
+          with (if evalg (v ctx) c then run_code v t ctx st0 else run_code v e ctx st0).
+        destruct (evalg (v ctx) c).
+        + rewrite run_code_ops. exact Hops.
+        + exact Hskip.
+      - rewrite run_code_ops. exact Hops. }
+    pbind Hmid st1 H1. exact H1.
   Qed.
 
   (* ---- the tree ---- *)
@@ -339,19 +373,19 @@ Section Phase.
     (forall i, In i S -> ~ In i b) -> incl a b -> forall i, In i S -> ~ In i a.
   Proof. intros H Hi i Hs Ha. apply (H i Hs). auto. Qed.
 
-  Lemma node_ok : forall n (inloop : bool) pre post' S st,
+  Lemma node_ok : forall n (inloop : bool) ctx pre post' S st,
     all = pre ++ stmts_of n ++ post' ->
     (forall i, In i S -> ~ In i (map sid (stmts_of n ++ post'))) ->
     Inv S st ->
     post (Inv (if inloop then S else S ++ map sid (stmts_of n)))
-         (run_code v (emit_node true globs tbl inloop n) st).
+         (run_code v (emit_node true swc globs tbl inloop n) ctx st).
   Proof.
     induction n as [s|l IHl|c t IHt|c t e IHt IHe|k b IHb] using node_ind';
-      intros inloop pre post' S st Hall Hdis HI.
+      intros inloop ctx pre post' S st Hall Hdis HI.
     - (* statement *)
-      cbn [emit_node stmts_of]. rewrite run_code_block, run_list_ops.
+      cbn [emit_node stmts_of].
       cbn [stmts_of app] in Hall, Hdis.
-      apply (stmt_ok inloop pre s post' S st Hall Hdis HI).
+      apply (stmt_ok inloop ctx pre s post' S st Hall Hdis HI).
     - (* block *)
       cbn [emit_node stmts_of]. cbn [stmts_of] in Hall, Hdis. rewrite run_code_block.
       revert pre S st Hall Hdis HI.
@@ -359,7 +393,7 @@ Section Phase.
       + cbn. destruct inloop; [exact HI|]. now rewrite app_nil_r.
       + cbn [map run_list flat_map]. cbn [flat_map] in Hall, Hdis.
         rewrite <- app_assoc in Hall, Hdis.
-        pose proof (Hc inloop pre (flat_map stmts_of r ++ post') S st Hall Hdis HI) as H1.
+        pose proof (Hc inloop ctx pre (flat_map stmts_of r ++ post') S st Hall Hdis HI) as H1.
         pbind H1 st1 HI1.
         destruct inloop.
         * apply (IHr (pre ++ stmts_of c) S st1).
@@ -375,17 +409,17 @@ Section Phase.
                 rewrite map_app. apply (NoDup_app_disj _ _ i N Hi).
           -- exact HI1.
     - (* if-then *)
-      cbn [emit_node stmts_of run_code]. destruct (evalg v c).
-      + apply (IHt inloop pre post' S st Hall Hdis HI).
+      cbn [emit_node stmts_of run_code]. destruct (evalg (v ctx) c).
+      + apply (IHt inloop ctx pre post' S st Hall Hdis HI).
       + cbn. destruct inloop; [exact HI|].
         eapply Inv_mono; [|exact HI]. apply incl_appl, incl_refl.
     - (* if-then-else *)
       cbn [emit_node stmts_of run_code]. cbn [stmts_of] in Hall, Hdis.
-      rewrite <- app_assoc in Hall, Hdis. destruct (evalg v c).
-      + eapply post_mono; [|apply (IHt inloop pre (stmts_of e ++ post') S st Hall Hdis HI)].
+      rewrite <- app_assoc in Hall, Hdis. destruct (evalg (v ctx) c).
+      + eapply post_mono; [|apply (IHt inloop ctx pre (stmts_of e ++ post') S st Hall Hdis HI)].
         destruct inloop; [auto|]. intros st1. apply Inv_mono.
         rewrite map_app, app_assoc. apply incl_appl, incl_refl.
-      + eapply post_mono; [|apply (IHe inloop (pre ++ stmts_of t) post' S st)].
+      + eapply post_mono; [|apply (IHe inloop ctx (pre ++ stmts_of t) post' S st)].
         * destruct inloop; [auto|]. intros st1. apply Inv_mono.
           rewrite map_app. apply incl_app; [apply incl_appl, incl_refl|].
           apply incl_appr, incl_appr, incl_refl.
@@ -394,10 +428,10 @@ Section Phase.
         * exact HI.
     - (* for *)
       cbn [emit_node stmts_of]. cbn [stmts_of] in Hall, Hdis. rewrite run_code_for.
-      assert (Hloop : forall k st, Inv S st ->
-                post (Inv S) (run_loop v (emit_node true globs tbl true b) k st)).
-      { clear st HI. intros k'. induction k' as [|k' IHk]; intros st HI; [exact HI|].
-        cbn [run_loop]. pose proof (IHb true pre post' S st Hall Hdis HI) as Hb1.
+      assert (Hloop : forall k i st, Inv S st ->
+                post (Inv S) (run_loop v ctx (emit_node true swc globs tbl true b) k i st)).
+      { clear st HI. intros k'. induction k' as [|k' IHk]; intros i st HI; [exact HI|].
+        cbn [run_loop]. pose proof (IHb true (i :: ctx) pre post' S st Hall Hdis HI) as Hb1.
         cbn [negb] in Hb1. pbind Hb1 st1 HI1. apply IHk. exact HI1. }
       eapply post_mono; [|apply Hloop; exact HI].
       destruct inloop; [auto|]. intros st1. apply Inv_mono. apply incl_appl, incl_refl.
